@@ -121,7 +121,11 @@ def run_groups(names, only=None, extra_flags=()):
         t0 = time.time()
         tmo = max(h['timeout'] for h in hs) + 600
         try:
-            p = subprocess.run(cmd, cwd=d, env=env, capture_output=True, text=True, timeout=tmo)
+            # one user of the shared Kani target directory at a time (checks may run side by side)
+            import fcntl
+            with open(os.path.join(CACHE, 'kani-target.lock'), 'w') as lk:
+                fcntl.flock(lk, fcntl.LOCK_EX)
+                p = subprocess.run(cmd, cwd=d, env=env, capture_output=True, text=True, timeout=tmo)
             out = p.stdout + '\n' + p.stderr
         except subprocess.TimeoutExpired as e:
             out = ((e.stdout or b'').decode(errors='replace') if isinstance(e.stdout, bytes) else (e.stdout or '')) + '\nTIMEOUT'
@@ -171,8 +175,10 @@ def run_groups(names, only=None, extra_flags=()):
             elif 'VERIFICATION:- FAILED' in b:
                 # unwinding-assertion / unsupported-feature failures are "undecided", not violations
                 fc = ' '.join(r['failed_checks'])
-                if re.search(r'unwinding assertion|not currently supported|unsupported', fc) and \
-                        not [x for x in r['failed_checks'] if not re.search(r'unwinding assertion|not currently supported|unsupported', x)]:
+                # "... with missing definition is unreachable": the harness body itself was not linked in (damaged build artefacts, e.g.
+                # two users of one target directory): a tool failure, never a verdict about the code
+                TOOL = r'unwinding assertion|not currently supported|unsupported|with missing definition is unreachable'
+                if re.search(TOOL, fc) and not [x for x in r['failed_checks'] if not re.search(TOOL, x)]:
                     r['status'] = 'undecided'
                     r['reason'] = 'tool limit: ' + fc[:200]
                 else:
